@@ -185,7 +185,11 @@ type KeyEvent struct {
 }
 
 func (t *terminal) SendKey(ev KeyEvent) (int, error) {
-	seq := t.encodeKey(ev)
+	// The encoding depends on mode registers the read loop may be changing.
+	var seq []byte
+	t.WithLock(func() {
+		seq = t.encodeKey(ev)
+	})
 	if len(seq) == 0 {
 		return 0, nil
 	}
